@@ -695,6 +695,26 @@ func (c *evalCtx) call(x *ast.CallExpr) SV {
 		argn(1)
 		v := c.eval(x.Args[0])
 		return SV{t: boolT, term: fmt.Sprintf("(= %s %s)", v.term, enc.zeroValue(v.t))}
+	case "rvint", "rvuint", "rvfloat", "rvkind", "rvbool", "typekind":
+		// abstract view of reflect.Value / reflect.Type (assumed library contracts, lib.go)
+		argn(1)
+		v := c.eval(x.Args[0])
+		if fnName == "typekind" {
+			enc.R.extra("(declare-fun rt-kind (Iface) (_ BitVec 64))")
+			return SV{t: types.Typ[types.Uint], term: fmt.Sprintf("(rt-kind %s)", v.term)}
+		}
+		enc.declareReflect(enc.R.sortOf(v.t))
+		switch fnName {
+		case "rvint":
+			return SV{t: types.Typ[types.Int64], term: fmt.Sprintf("(rv-int %s)", v.term)}
+		case "rvuint":
+			return SV{t: types.Typ[types.Uint64], term: fmt.Sprintf("(rv-uint %s)", v.term)}
+		case "rvfloat":
+			return SV{t: types.Typ[types.Float64], term: fmt.Sprintf("(rv-float %s)", v.term)}
+		case "rvbool":
+			return SV{t: boolT, term: fmt.Sprintf("(rv-bool %s)", v.term)}
+		}
+		return SV{t: types.Typ[types.Uint], term: fmt.Sprintf("(rv-kind %s)", v.term)}
 	case "fresh":
 		// allocated by this function (pre-existing references are >= 0): pointers, maps, slices
 		argn(1)
